@@ -404,6 +404,49 @@ def parse_constraints(src, legal_hashes=None):
     return [("(CLegalHashes %s)" % ulist(legal_hashes or [])) if x == "LEGAL_HASHES_PLACEHOLDER" else x for x in out]
 
 
+# ---- the part of _check_object_constraints every class inherits (_STIXBase): granular-marking selectors
+# are validated by the model's construct_generic (granular_check); anything after that part is translated
+# like a class's own constraints and prepended to the classes it applies to.  Recognised by normalised text.
+BASE_SRC_ORIG = """(self)
+for m in self.get('granular_markings', []):
+    validate(self, m.get('selectors'))"""
+BASE_SRC = """(self)
+granular_markings = self.get('granular_markings', [])
+if 'granular_markings' not in self._properties and (not isinstance(granular_markings, list) or not all((isinstance(m, collections.abc.Mapping) for m in granular_markings))):
+    raise InvalidValueError(self.__class__, 'granular_markings', 'must be a list of granular markings')
+for m in granular_markings:
+    validate(self, m.get('selectors'))"""
+# proposed fix C02-modified-before-created: the common-property rule created <= modified on every class that
+# has both properties and is not an observable (2.0 file / directory carry file-system times of those names)
+BASE_VERSIONED_GUARD = "'created' in self._properties and 'modified' in self._properties and (not isinstance(self, _Observable))"
+
+
+def base_extra(src):
+    """None: no base text in the tables (the frozen spec).  Else a list of (applies(class dict) -> bool, [terms])."""
+    if src is None:
+        return []
+    for head in (BASE_SRC, BASE_SRC_ORIG):
+        if src == head:
+            return []
+        if src.startswith(head + "\n"):
+            try:
+                tail = ast.parse(src[len(head) + 1:]).body
+            except SyntaxError:
+                break
+            if len(tail) == 1 and isinstance(tail[0], ast.If) and not tail[0].orelse \
+                    and ast.unparse(tail[0].test) == BASE_VERSIONED_GUARD:
+                cons = _stmts(tail[0].body, {})
+                if cons and not any(c.startswith("(COpaque") for c in cons):
+                    return [(versioned_class, cons)]
+            break
+    return [(lambda c: True, ["(COpaque %s)" % ustr("base _check_object_constraints: " + src)])]
+
+
+def versioned_class(c):
+    names = {s["name"] for s in c["slots"]}
+    return "created" in names and "modified" in names and c["family"] != "sco"
+
+
 INIT_FORMS = {
     # normalised source -> preinit term
     "(self, source_ref=None, relationship_type=None, target_ref=None, **kwargs)\n"
@@ -491,12 +534,19 @@ def preinit(src):
 FAMILY = {"sdo": "FSdo", "sro": "FSro", "sco": "FSco", "ext": "FExt", "other": "FOther"}
 
 
-def emit_class(cid, c):
+def emit_class(cid, c, inherited=()):
     slots = []
     for s in c["slots"]:
         slots.append("{| sname := %s; skind := %s; sreq := %s; sdef := %s |}" % (
             ustr(s["name"]), kind(s["kind"]), "true" if s["required"] else "false", dflt(s["default"])))
     cons = parse_constraints(c.get("constraints_src"), c.get("legal_hashes"))
+    if "CSkipBaseCheck" not in cons:
+        # the inherited part runs where the override calls super(): first
+        for applies, terms in inherited:
+            if applies(c):
+                cons = list(terms) + cons
+    # constraints stated by an audited override of the frozen specification tables
+    cons = list(c.get("extra_constraints", [])) + cons
     ser = c.get("serialize_src")
     if ser is None:
         ser_tlp = "false"
@@ -527,10 +577,11 @@ def emit(tables, name, comment):
            "From V Require Import Base.UString Base.Json Model.SchemaTypes.",
            "Import ListNotations.", "Open Scope string_scope.", ""]
     names = []
+    inherited = base_extra(tables.get("base_constraints_src"))
     for i, (cid, c) in enumerate(tables["classes"].items()):
         n = "%s_c%d" % (name, i)
         names.append(n)
-        out.append("Definition %s : cls :=\n  %s.\n" % (n, emit_class(cid, c)))
+        out.append("Definition %s : cls :=\n  %s.\n" % (n, emit_class(cid, c, inherited)))
     out.append("Definition %s_classes : list cls :=\n  %s.\n" % (name, lst(names)))
     out.append("Definition %s_raw : world :=\n  {| wclasses := %s_classes;\n     wreg20 := %s;\n     wreg21 := %s;\n"
                "     wtlp20 := %s;\n     wtlp21 := %s |}.\n" % (
@@ -549,6 +600,7 @@ def load_spec(verif_dir):
     import copy
     t = json.load(open(os.path.join(verif_dir, "spec", "stix_tables.json")))
     ov = json.load(open(os.path.join(verif_dir, "spec", "audited_overrides.json")))
+    t.pop("base_constraints_src", None)
     for o in ov:
         m = o["match"]
         hit = 0
@@ -556,6 +608,14 @@ def load_spec(verif_dir):
             if "ver" in m and c["ver"] != m["ver"]:
                 continue
             if "class" in m and cid != m["class"]:
+                continue
+            if "add_constraint" in o:
+                # a co-constraint the normative text states, as a term of SchemaTypes.constr, on every class
+                # that has all the named properties (and is not of an excluded family)
+                names = {sl["name"] for sl in c["slots"]}
+                if set(m["slots"]) <= names and c["family"] not in m.get("family_not", []):
+                    c.setdefault("extra_constraints", []).append(o["add_constraint"])
+                    hit += 1
                 continue
             for sl in c["slots"]:
                 if sl["name"] == m["slot"]:
